@@ -29,18 +29,51 @@ def is_read(t):
     return (t.get("callee") or "") == READ_DECL or (callee_of(t) or "").endswith("::read_new_file")
 
 
-def push_sites(f, fl):
-    """(bb, term, desc_agg_stmt) for Vec<IncludeDesc>::push calls in f."""
+_PUSH_HELPERS = {}
+
+
+def push_helper_summary(prog, path):
+    """A crate-local helper h(.., vec, .., name, ..) that on every path pushes an IncludeDesc whose `name`
+    derives from one of its parameters onto a Vec<IncludeDesc> parameter: returns (vec_argidx, name_argidx)."""
+    if path in _PUSH_HELPERS:
+        return _PUSH_HELPERS[path]
+    _PUSH_HELPERS[path] = None
+    h = prog.fn(path)
+    if h is None or h.kind == "Closure":
+        return None
+    hfl = Flow(h)
+    for bb, t in h.calls():
+        c = callee_of(t) or ""
+        if c.endswith("Vec::<T, A>::push") and t.get("gargs") and t["gargs"][0] == DESC:
+            vparams = [x for x in hfl.back([op_local(t["args"][0])]) if 1 <= x <= h.argc and "Vec<" in h.local_ty(x)]
+            names, found = pushed_name_locals(h, hfl, t)
+            nparams = {x for n in names for x in hfl.back_pure([n]) if 1 <= x <= h.argc and x not in vparams}
+            if len(vparams) == 1 and len(nparams) == 1 and must_pass(h, 0, h.return_blocks(), [bb]):
+                _PUSH_HELPERS[path] = (vparams[0] - 1, next(iter(nparams)) - 1)
+    return _PUSH_HELPERS[path]
+
+
+def push_sites(f, fl, prog=None):
+    """Push events in f: direct Vec<IncludeDesc>::push calls and calls to push helpers, normalised to
+    pseudo-terminators with args [vec, desc_or_name]."""
     out = []
     for bb, t in f.calls():
         c = callee_of(t) or ""
         if c.endswith("Vec::<T, A>::push") and t.get("gargs") and t["gargs"][0] == DESC:
             out.append((bb, t))
+        elif prog is not None and (t.get("callee_local") or t.get("target_local")):
+            sm = push_helper_summary(prog, c)
+            if sm and max(sm) < len(t["args"]):
+                out.append((bb, {"args": [t["args"][sm[0]], t["args"][sm[1]]], "helper": c, "name_direct": True,
+                                 "dest": t["dest"], "k": "call"}))
     return out
 
 
 def pushed_name_locals(f, fl, t):
     """Locals feeding the `name` field of the IncludeDesc being pushed."""
+    if t.get("name_direct"):
+        l = op_local(t["args"][1])
+        return ({l} if l is not None else set()), True
     l = op_local(t["args"][1])
     names = set()
     if l is None:
@@ -89,7 +122,7 @@ def run(tier="quick", replay=None):
     for f, bb, t in sites:
         fl = Flow(f)
         fr = follow_result(f, bb)
-        pushes = push_sites(f, fl)
+        pushes = push_sites(f, fl, prog)
         rec_push = None
         for pbb, pt in pushes:
             names, found = pushed_name_locals(f, fl, pt)
